@@ -34,7 +34,7 @@ def main():
             return out
         if '--skip-tests' not in sys.argv:
             junit = os.path.join(root, 'junit.xml')
-            r = sh('cd %s && /venv/bin/python -m pytest -q -p no:cacheprovider --timeout=900 --continue-on-collection-errors --junitxml=%s 2>&1 | tail -1' % (wt, junit))
+            r = sh('cd %s && OMP_NUM_THREADS=1 OPENBLAS_NUM_THREADS=1 MKL_NUM_THREADS=1 timeout 1500 /venv/bin/python -m pytest -q -p no:cacheprovider --timeout=900 --continue-on-collection-errors --junitxml=%s 2>&1 | tail -1' % (wt, junit))
             out['pytest_summary'] = r.stdout.strip()
             import xml.etree.ElementTree as ET
             passed = set()
